@@ -24,7 +24,7 @@
 #define TPEV_NCTL 8
 #define TPEV_NSET 4
 #define TPEV_NCRE 4
-#define TPEV_NWAIT 4
+#define TPEV_NWAIT 6
 #define TPEV_NMISC 3
 #define TPEV_NCLOSE 4
 #define TPEV_TSLOTS 3
@@ -53,7 +53,7 @@ struct in_s {
 
 enum { A_ADD = 0, A_ENABLE = 1, A_DISABLE = 2, A_DEL = 3 };
 
-static tp_udata_t *uds;			/* NID udata objects */
+static tp_udata_t uds[NID];		/* the identifiers' udata (static: see tpev_env.h on constant propagation) */
 static struct { int reg, en; uint16_t flags; } ref[NID];
 static int n_cb[NID], n_cb_other;
 static tp_event_t last_ev[NID];
@@ -74,7 +74,7 @@ static int epfd_of(int j) { return (on_pvt(j) ? TPEV_EPFD_PVT : TPEV_EPFD); }
 static int is_rw(int j) { return (kind_of(j) == TP_EV_READ || kind_of(j) == TP_EV_WRITE); }
 
 static int k_slot_of_ud(int j) {	/* epoll registration carrying this udata */
-	for (int i = 0; i < TPEV_KSLOTS; i++) if (tpev_k[i].used && tpev_k[i].ptr == (void *)&uds[j]) return (i);
+	for (int i = 0; i < TPEV_KSLOTS; i++) if (tpev_k_used[i] && tpev_k_ptr[i] == (void *)&uds[j]) return (i);
 	return (-1);
 }
 
@@ -89,10 +89,10 @@ static void check_state(void) {
 			V_ASSERT(ks >= 0, "enabled: epoll registration present");
 			V_ASSERT((ud->tpdata & TPDATA_F_DISABLED) == 0, "enabled: not marked disabled");
 			if (ks >= 0) {
-				uint32_t e = tpev_k[ks].events;
-				V_ASSERT(tpev_k[ks].epfd == epfd_of(j), "enabled: registered with the owning thread's epoll");
+				uint32_t e = tpev_k_events[ks];
+				V_ASSERT(tpev_k_epfd[ks] == epfd_of(j), "enabled: registered with the owning thread's epoll");
 				if (is_rw(j)) {
-					V_ASSERT(tpev_k[ks].fd == (int)ud->ident, "enabled: the identifier's descriptor is watched");
+					V_ASSERT(tpev_k_fd[ks] == (int)ud->ident, "enabled: the identifier's descriptor is watched");
 					if (kind_of(j) == TP_EV_READ)
 						V_ASSERT((e & (EPOLLIN | EPOLLRDHUP)) == (EPOLLIN | EPOLLRDHUP), "enabled read: EPOLLIN|EPOLLRDHUP interest");
 					else
@@ -101,14 +101,13 @@ static void check_state(void) {
 					    "enabled: EPOLLONESHOT iff ONESHOT|DISPATCH");
 				} else {
 					int tfd = TPDATA_TFD_GET(ud->tpdata), ti = tpev_t_find(tfd);
-					V_ASSERT(tfd != 0 && ti >= 0 && tpev_k[ks].fd == tfd, "enabled timer/proc: its descriptor is open and watched");
+					V_ASSERT(tfd != 0 && ti >= 0 && tpev_k_fd[ks] == tfd, "enabled timer/proc: its descriptor is open and watched");
 					V_ASSERT((e & EPOLLIN) != 0, "enabled timer/proc: EPOLLIN interest");
 					if (ti >= 0 && kind_of(j) == TP_EV_TIMER) {
 						int periodic = (ref[j].flags & (TP_F_ONESHOT | TP_F_DISPATCH)) == 0;
-						V_ASSERT(tpev_t[ti].set_cnt > 0, "enabled timer: programmed");
-						V_ASSERT(periodic ? (tpev_t[ti].spec.it_interval.tv_sec == tpev_t[ti].spec.it_value.tv_sec &&
-						    tpev_t[ti].spec.it_interval.tv_nsec == tpev_t[ti].spec.it_value.tv_nsec)
-						    : (tpev_t[ti].spec.it_interval.tv_sec == 0 && tpev_t[ti].spec.it_interval.tv_nsec == 0),
+						V_ASSERT(tpev_t_set_cnt[ti] > 0, "enabled timer: programmed");
+						V_ASSERT(periodic ? (tpev_t_int_sec[ti] == tpev_t_val_sec[ti] && tpev_t_int_nsec[ti] == tpev_t_val_nsec[ti])
+						    : (tpev_t_int_sec[ti] == 0 && tpev_t_int_nsec[ti] == 0),
 						    "enabled timer: periodic iff neither ONESHOT nor DISPATCH");
 					}
 				}
@@ -117,10 +116,10 @@ static void check_state(void) {
 	}
 	/* no leaked timerfd/pidfd: every open one belongs to a registered identifier */
 	for (int i = 0; i < TPEV_TSLOTS; i++) {
-		if (!tpev_t[i].open) continue;
+		if (!tpev_t_open[i]) continue;
 		int owned = 0;
 		for (int j = 0; j < NID; j++)
-			if (ref[j].reg && !is_rw(j) && TPDATA_TFD_GET(uds[j].tpdata) == tpev_t[i].fd) owned = 1;
+			if (ref[j].reg && !is_rw(j) && TPDATA_TFD_GET(uds[j].tpdata) == tpev_t_fd[i]) owned = 1;
 		V_ASSERT(owned, "every open timerfd/pidfd belongs to a registered identifier");
 	}
 }
@@ -143,7 +142,7 @@ static void control(int i, int j) {
 	tp_event_t ev = { .event = kind, .flags = flags, .fflags = fflags, .data = data };
 	uint64_t tpdata0 = ud->tpdata;
 	int ks0 = k_slot_of_ud(j);
-	struct tpev_kent_s k0 = tpev_k[ks0 >= 0 ? ks0 : 0];
+	uint32_t k0_events = tpev_k_events[ks0 >= 0 ? ks0 : 0]; int k0_fd = tpev_k_fd[ks0 >= 0 ? ks0 : 0];
 	int cb_before = n_cb[0] + n_cb[NID - 1] + n_cb_other;
 	int r;
 	switch (st->act) {
@@ -171,7 +170,7 @@ static void control(int i, int j) {
 		/* semantic refusal: either nothing changed, or the identifier ended up unregistered */
 		int ks = k_slot_of_ud(j);
 		int gone = (ks < 0 && ud->tpdata == 0);
-		int same = (ud->tpdata == tpdata0 && ks == ks0 && (ks < 0 || (tpev_k[ks].events == k0.events && tpev_k[ks].fd == k0.fd)));
+		int same = (ud->tpdata == tpdata0 && ks == ks0 && (ks < 0 || (tpev_k_events[ks] == k0_events && tpev_k_fd[ks] == k0_fd)));
 		V_ASSERT(gone || same, "a refused control call leaves the registration unchanged or removed");
 		V_ASSERT(st->act != A_ADD || kind == TP_EV_PROC, "add of a well-formed event is not refused (kernel permitting)");
 		if (gone) { ref[j].reg = 0; ref[j].en = 0; }
@@ -201,6 +200,10 @@ static void deliver(int i, int t) {	/* t: identifier epoll may report, -1: none 
 		int want = (j == tgt && r0[j].reg && r0[j].en) ? 1 : 0;
 		V_ASSERT(fired == want, "callback runs exactly once iff the reported identifier is registered and enabled");
 		if (!fired) { if (j == tgt && r0[j].reg && !r0[j].en) V_WITNESS("delivery for a disabled identifier suppressed"); continue; }
+#ifdef KF_ONESHOT_PVT	/* known finding oneshot-pvt-epfd: tpt_loop deletes a fired ONESHOT read/write event from the
+			 * running thread's epoll set instead of the owning (pool virtual) thread's (blocking clause) */
+		V_ASSUME(!(on_pvt(j) && is_rw(j) && (ref[j].flags & TP_F_ONESHOT)));
+#endif
 		tp_event_t *e = &last_ev[j];
 		V_ASSERT(e->event == kind_of(j), "callback sees the registered event kind");
 		if (is_rw(j)) {
@@ -229,8 +232,6 @@ void harness(void) {
 	for (int k = 0; k < TPEV_NSET; k++) V_ASSUME(IN.env.set_err[k] == 0);
 	for (int k = 0; k < TPEV_NCRE; k++) V_ASSUME(IN.env.cre_fd[k] != -1);
 	for (int k = 0; k < TPEV_NMISC; k++) V_ASSUME(IN.env.fcntl_err[k] == 0);
-	uds = (tp_udata_t *)v_alloc(NID * sizeof(tp_udata_t));
-	memset(uds, 0, NID * sizeof(tp_udata_t));
 	for (int j = 0; j < NID; j++) {
 		V_ASSUME((IN.id[j].tflags & ~(TP_F_ONESHOT | TP_F_DISPATCH)) == 0 && IN.id[j].tflags != (TP_F_ONESHOT | TP_F_DISPATCH));
 		uds[j].cb_func = cb;
